@@ -1,4 +1,6 @@
 SPECIFICATION ASpec
+CONSTANT TrustUpload = FALSE
 CONSTANT WithBackend = TRUE
 INVARIANTS InvStoredValid InvLatestWins
+PROPERTY DeinlinedInCas
 CHECK_DEADLOCK FALSE
